@@ -77,4 +77,36 @@ theorem sortBy_perm_invariant {le : α → α → Bool} (ord : TotalPreorder le)
   have hb' : b ∈ l := (sortBy_perm le l).subset hb
   exact anti a b ha' hb' hab hba
 
+/-- inserting into a list: a class `p` of mutually tied elements keeps its order -/
+theorem insertBy_filter_class (le : α → α → Bool) (p : α → Bool)
+    (tie : ∀ a b, p a = true → p b = true → le a b = true) (x : α) (l : List α) :
+    (insertBy le x l).filter p = (x :: l).filter p := by
+  induction l with
+  | nil => rfl
+  | cons y ys ih =>
+    unfold insertBy
+    split
+    · rfl
+    · rename_i hxy
+      by_cases hx : p x = true
+      · have hy : p y = false := by
+          cases hpy : p y with
+          | false => rfl
+          | true => exact absurd (tie x y hx hpy) hxy
+        simp only [List.filter_cons, hy, hx, if_true] at ih ⊢
+        simpa using ih
+      · have hx' : p x = false := by simpa using hx
+        simp only [List.filter_cons, hx'] at ih ⊢
+        simp [ih]
+
+/-- **Stability on ties.**  If all elements of a class `p` compare `≤` each other, sorting keeps their input order. -/
+theorem sortBy_filter_class (le : α → α → Bool) (p : α → Bool)
+    (tie : ∀ a b, p a = true → p b = true → le a b = true) (l : List α) :
+    (sortBy le l).filter p = l.filter p := by
+  induction l with
+  | nil => rfl
+  | cons x xs ih =>
+    simp only [sortBy]
+    rw [insertBy_filter_class le p tie, List.filter_cons, List.filter_cons, ih]
+
 end SortPerm
